@@ -261,6 +261,15 @@ where
     E: FieldElement,
     H: ElementHasher<BaseField = E::BaseField>,
 {
+    drive_with_bound(out, s, f, num_queries, nonce, s.bound())
+}
+
+/// like `drive`, with the degree bound handed to FriVerifier::new chosen by the caller
+fn drive_with_bound<E, H>(out: &adv::AdvOut<E, H>, s: &Sched, f: &[E], num_queries: usize, nonce: u64, bound: usize) -> Outcome
+where
+    E: FieldElement,
+    H: ElementHasher<BaseField = E::BaseField>,
+{
     let r = catch(|| -> Result<(), (&'static str, String)> {
         let mut reader = SliceReader::new(&out.proof_bytes);
         let proof = FriProof::read_from(&mut reader).map_err(|e| ("read_from", de_variant(&e)))?;
@@ -271,7 +280,7 @@ where
         let mut channel = DefaultVerifierChannel::<E, H>::new(proof, out.commitments.clone(), s.domain(), s.folding())
             .map_err(|e| ("channel", de_variant(&e)))?;
         let mut coin = DefaultRandomCoin::<H>::new(&[]);
-        let verifier = FriVerifier::<E, DefaultVerifierChannel<E, H>, H, DefaultRandomCoin<H>>::new(&mut channel, &mut coin, options, s.bound())
+        let verifier = FriVerifier::<E, DefaultVerifierChannel<E, H>, H, DefaultRandomCoin<H>>::new(&mut channel, &mut coin, options, bound)
             .map_err(|e| ("new", variant(&e)))?;
         let positions = coin.draw_integers(num_queries, s.domain(), nonce).map_err(|_| ("coin", "draw_integers".to_string()))?;
         if positions != out.positions {
@@ -577,6 +586,108 @@ fn self_family_name(s: &Strat) -> &'static str {
     }
 }
 
+// DEGREE BOUNDS THAT ARE NOT OF THE FORM 2^k - 1
+// ================================================================================================
+
+#[derive(Serialize, Deserialize, Clone, Debug)]
+pub struct CutCase {
+    pub ty: Ty,
+    pub sched: Sched,
+    pub num_queries: u16,
+    pub nonce: u64,
+    pub seed: u64,
+    /// selects the claimed bound among the admissible ones below the schedule's 2^k - 1
+    pub cut_sel: u16,
+    /// selects the degree of the polynomial between the claimed bound + 1 and 2^k - 1
+    pub deg_sel: u16,
+}
+
+pub struct ReducedBound;
+
+fn cut_generic<E, H>(c: &CutCase, obs: &mut Obs) -> CheckResult
+where
+    E: FieldElement,
+    E::BaseField: FA,
+    H: ElementHasher<BaseField = E::BaseField>,
+{
+    let s = &c.sched;
+    s.well_formed().map_err(|e| Fail::new("harness/ill-formed-schedule", format!("{s:?}: {e}")))?;
+    let (domain, t, big_l) = (s.domain(), s.t(), s.layers as usize);
+    let offset = E::BaseField::GENERATOR;
+    let q = (c.num_queries as usize).clamp(1, 255.min(domain - 1));
+    let mut x = Expand::new(c.seed, 5);
+    // claimed bound t' - 1 with t' a multiple of N^L (so that every folding step divides it), t/2 < t' < t
+    // (the verifier derives the same domain from it: next_power_of_two(t' - 1) = t)
+    let unit = 1usize << (s.log_n as usize * big_l);
+    let steps = (t / 2) / unit; // number of admissible t' = t - j * unit with t' > t / 2, j = 1 .. steps - 1 (t' = t/2 excluded)
+    if steps < 2 {
+        obs.label("excluded:no-admissible-bound-below");
+        return Ok(());
+    }
+    let j = 1 + vf_core::pick_index(c.cut_sel, steps - 1);
+    let t_claimed = t - j * unit;
+    debug_assert!(t_claimed > t / 2 && t_claimed < t);
+    let bound = t_claimed - 1;
+    if bound.next_power_of_two() != t {
+        obs.label("excluded:domain-would-differ");
+        return Ok(());
+    }
+    // a polynomial whose degree exceeds the claimed bound but not the schedule's 2^k - 1
+    let deg = t_claimed + vf_core::pick_index(c.deg_sel, t - t_claimed);
+    let coeffs: Vec<E> = random_poly(&mut x, deg + 1);
+    let f = model::eval_coset(&coeffs, domain, offset);
+    obs.label(format!("excess={}", if deg == t_claimed { "1" } else if deg == t - 1 { "max" } else { "between" }));
+    obs.label(if big_l == 0 { "layers=0".to_string() } else { format!("layers>={}", big_l.min(2)) });
+    // an honest prover of the 2^k schedule: every layer, every opening and the remainder are consistent
+    let plan = Plan::honest(f.clone(), q, c.nonce);
+    let out = adv::run::<E, H>(s, &plan);
+    obs.nontrivial();
+    match drive_with_bound(&out, s, &f, q, c.nonce, bound) {
+        Outcome::Accepted => Err(Fail::new(
+            "reduced-bound/accepted",
+            format!(
+                "{}: the evaluations of a polynomial of degree {deg} were accepted for the claimed degree bound {bound} ({s:?}, domain {domain}, {q} queries)",
+                c.ty.label()
+            ),
+        )),
+        Outcome::Rejected(stage, what) => {
+            obs.label(format!("rejected:{stage}:{what}"));
+            Ok(())
+        },
+        Outcome::Panicked(p) => {
+            obs.label(format!("panic:{}", p.key()));
+            Ok(())
+        },
+    }
+}
+
+impl SubCheck for ReducedBound {
+    type Case = CutCase;
+    fn name(&self) -> String {
+        "reduced-bound".into()
+    }
+    fn cases(&self, tier: Tier) -> u64 {
+        tier.pick(6_000, 120_000)
+    }
+    fn rule(&self) -> String {
+        "a well-formed schedule for the bound 2^k - 1 and a claimed bound t' - 1 below it (t' a multiple of folding^layers, 2^(k-1) < t' < 2^k, so that the verifier derives the same domain); the function is a polynomial of degree t' .. 2^k - 1 proven honestly under the 2^k schedule (every layer, opening and the remainder consistent); oracle: FriVerifier::new(.., t' - 1) followed by verify must not accept; non-trivial = an admissible claimed bound exists".into()
+    }
+    fn required_labels(&self, _t: Tier) -> Vec<String> {
+        ["excess=1", "excess=max", "layers=0", "layers>=2"].iter().map(|s| s.to_string()).collect()
+    }
+    fn strategy(&self, tier: Tier) -> BoxedStrategy<CutCase> {
+        let max = tier.pick(10, 13);
+        let sched = prop_oneof![2 => cfg::sched_strategy_layers(0, 3, 8), 2 => cfg::sched_strategy_layers(1, 4, 9), 1 => cfg::sched_strategy_layers(2, 5, max)];
+        let queries = prop_oneof![2 => 1u16..=4, 3 => 5u16..=40, 1 => 41u16..=255];
+        (cfg::ty_strategy(6, 1), sched, queries, any::<u64>(), any::<u64>(), any::<u16>(), any::<u16>())
+            .prop_map(|(ty, sched, num_queries, nonce, seed, cut_sel, deg_sel)| CutCase { ty, sched, num_queries, nonce, seed, cut_sel, deg_sel })
+            .boxed()
+    }
+    fn check(&self, c: &CutCase, obs: &mut Obs) -> CheckResult {
+        crate::with_types!(c.ty, cut_generic(c, obs))
+    }
+}
+
 pub fn run(run: &mut Run) {
     run.assume("field arithmetic of /repo is correct (C07/C08); the harness' fold / FFT / Lagrange routines are validated against vf_ref in C15");
     run.assume("hash collisions and coincidences of independent uniform field elements (probability <= 2^-60 per comparison) do not occur; apart from these, whether an acceptance is legitimate is computed exactly from the actual query positions");
@@ -589,4 +700,5 @@ pub fn run(run: &mut Run) {
     for fam in [Family::HonestFold, Family::SwitchLayer, Family::Tamper, Family::WrongAlpha, Family::Structure, Family::RemainderAfterQueries] {
         run.sub(&Adv(fam));
     }
+    run.sub(&ReducedBound);
 }
